@@ -21,11 +21,33 @@ import sys
 import time
 
 ROOT = os.path.dirname(os.path.abspath(__file__))
-COQ = os.path.join(ROOT, "coq")
 OCAML = os.path.join(ROOT, "ocaml")
-BUILD = os.path.join(OCAML, "build")
 HARNESS = os.path.join(ROOT, "harness")
 REPO = os.environ.get("VERIF_REPO", "/repo")
+if REPO == "/repo":
+    COQ = os.path.join(ROOT, "coq")
+    BUILD = os.path.join(OCAML, "build")
+else:
+    # A run against another source tree (seeded changes, the pre-fix snapshot) regenerates the files under
+    # coq/theories/Generated from THAT tree: it works on a private copy of the Coq development (compiled files
+    # included, so only what depends on a regenerated file is rebuilt) and its own driver build directory.
+    _tag = hashlib.sha256(REPO.encode()).hexdigest()[:10]
+    COQ = os.path.join("/tmp", "svcoq-" + _tag, "coq")
+    BUILD = os.path.join("/tmp", "svcoq-" + _tag, "ocaml-build")
+    os.makedirs(COQ, exist_ok=True)
+    subprocess.run(["rsync", "-a", "--delete", "--exclude", ".lock", "--exclude", "theories/Generated/*",
+                    os.path.join(ROOT, "coq") + "/", COQ + "/"], check=True)
+    for _f in os.listdir(os.path.join(ROOT, "coq", "theories", "Generated")):
+        # generated sources are taken over only when absent (they are rewritten from the other tree before every proof step)
+        _dst = os.path.join(COQ, "theories", "Generated", _f)
+        _src = os.path.join(ROOT, "coq", "theories", "Generated", _f)
+        if not os.path.exists(_dst):
+            os.makedirs(os.path.dirname(_dst), exist_ok=True)
+            subprocess.run(["cp", "-p", _src, _dst], check=True)
+        elif _f.endswith(".v") and open(_dst, "rb").read() != open(_src, "rb").read():
+            os.utime(_dst)      # differs from what the copied .vo files were compiled from: force the rebuild
+        elif not _f.endswith(".v"):
+            subprocess.run(["cp", "-p", _src, _dst], check=True)
 GUARD_CFG = "servlin_verif"
 
 # which parts of the source (as named in the problem texts of props/srcparams.py) each property's model depends on
@@ -538,8 +560,9 @@ def main_check(pid, argv):
         print("case:    ", c)
         print("impl:    ", i)
         print("model:   ", m)
-        print("verdict: ", v, "| correspondence:", "equal" if i == m else "DIFFERENT")
-        return 0 if (i == m and oracle_ok(v)) else 1
+        same = getattr(mod, "corr_equal", lambda a, b: a == b)(i, m)
+        print("verdict: ", v, "| correspondence:", "equal" if same else "DIFFERENT")
+        return 0 if (same and oracle_ok(v)) else 1
 
     violations = []      # (kind, replay_path, note)
     known_lines = []
@@ -584,17 +607,18 @@ def main_check(pid, argv):
     seen_known = {}
     oracle_fail = []
     corr_fail = []
+    corr_equal = getattr(mod, "corr_equal", lambda a, b: a == b)
     for (prof, c, i, m, v) in results:
         kid = known_id(v)
         if not oracle_ok(v):
             if kid and kid in known_ids:
                 # a listed finding: reported as KNOWN-FINDING; the correspondence is still compared
                 seen_known.setdefault(kid, (prof, c, i, m, v))
-                if i != m:
+                if not corr_equal(i, m):
                     corr_fail.append((prof, c, i, m, v))
                 continue
             oracle_fail.append((prof, c, i, m, v))
-        elif i != m:
+        elif not corr_equal(i, m):
             corr_fail.append((prof, c, i, m, v))
     n = 0
     if oracle_fail:
@@ -644,7 +668,7 @@ def main_check(pid, argv):
         else:
             prof, c, i, m, v = corr_fail[0]
             def failing(r):
-                return r[1] != r[2]
+                return not corr_equal(r[1], r[2])
             small = shrink_case(pid, mod, c, rundir, failing)
             rr = run_both(pid, mod, [small], rundir, tag="final", profile=prof)[0]
             path = write_replay(pid, rundir, n, "correspondence", rr[0], rr[1], rr[2], rr[3],
@@ -705,7 +729,7 @@ def main_check(pid, argv):
             rule=getattr(mod, "RULE", "corpus first, then the seeded generator; a case is non-trivial by the module's rule"),
             samples=samples,
             input_distribution=hist,
-            traces_validated_against_impl=sum(1 for r in results if r[2] == r[3]),
+            traces_validated_against_impl=sum(1 for r in results if corr_equal(r[2], r[3])),
             correspondence_differences=len(corr_fail),
             oracle_failures=len(oracle_fail),
             known_findings_reproduced=sorted(seen_known.keys()),
